@@ -1484,7 +1484,7 @@ Corollary no_event_otherwise fx s t th :
   ~ In t (map e_sid (sent_log s)).
 Proof.
   intros R Hth Hpc Hs Hin. pose proof (one_event_per_sync _ _ _ _ R Hth Hpc) as H. rewrite Hs in H.
-  apply (count_occ_not_In Nat.eq_dec) in H; [exact H|exact Hin].
+  apply (count_occ_not_In Nat.eq_dec) in H. exact (H Hin).
 Qed.
 
 Theorem latest_before_event fx s e :
@@ -1519,27 +1519,18 @@ Definition order_witness : list label :=
    Step 1 0; Step 1 0; Step 1 4; Step 1 0; Step 1 0; Step 1 0;
    Core LDist; Core LDist;
    Step 0 0; Step 0 0; Core LDist; Core LDist;
-   Step 0 0; Step 0 0; Step 1 0; Step 1 0].
+   Step 0 0; Step 1 0].
 
-Definition order_check (s : st) : bool :=
-  list_eq_dec Nat.eq_dec (done_of 1 s) [0; 1] && list_eq_dec Nat.eq_dec (sent_of 1 s) [1; 0] &&
-  match latest s 1%N with Some c => N.eqb c 10 | None => false end &&
-  match threads s 0, threads s 1 with
-  | Some a, Some b => match t_pc a, t_pc b with PFin, PFin => true | _, _ => false end
-  | _, _ => false
-  end.
+Definition order_obs (s : st) := (done_of 1%N s, sent_of 1%N s, latest s 1%N).
 
 Theorem per_publisher_order_refuted :
   exists s, reach false s /\ done_of 1%N s = [0; 1] /\ sent_of 1%N s = [1; 0] /\ latest s 1%N = Some 10%N.
 Proof.
-  assert (H : match run (stepf false) init order_witness with Some s => order_check s | None => false end = true)
+  assert (H : option_map order_obs (run (stepf false) init order_witness) = Some ([0; 1], [1; 0], Some 10%N))
     by (vm_compute; reflexivity).
   destruct (run (stepf false) init order_witness) as [s|] eqn:E; [|discriminate].
   exists s. split; [exists order_witness; exact E|].
-  unfold order_check in H. repeat (apply andb_prop in H; destruct H as [H ?]).
-  destruct (list_eq_dec Nat.eq_dec (done_of 1%N s) [0; 1]); [|discriminate].
-  destruct (list_eq_dec Nat.eq_dec (sent_of 1%N s) [1; 0]); [|discriminate].
-  destruct (latest s 1%N); [|discriminate]. apply N.eqb_eq in H1. subst. auto.
+  cbn [option_map] in H. unfold order_obs in H. inversion H. auto.
 Qed.
 
 (* the same schedule is impossible once the event is sent inside the sync lock *)
@@ -1573,3 +1564,75 @@ Example demo_runs :
   | None => false
   end = true.
 Proof. vm_compute. reflexivity. Qed.
+
+(* ---- after close(inEvents) the distributor ends by its own steps, having forwarded
+        what was still in the channel and closed every listener ---- *)
+
+Definition close_rank (c : core) : nat :=
+  match d_pc c with
+  | DDone => 0
+  | DClosing rest => S (List.length rest)
+  | _ => dist_rank c + (match in_ev c with Some _ => 2 + List.length (d_list c) | None => 0 end)
+         + 2 + List.length (d_list c)
+  end.
+
+Lemma close_step c :
+  CInv c -> in_closed c = true -> close_rank c <> 0 ->
+  exists c', cstep c LDist = Some c' /\ close_rank c' = pred (close_rank c) /\ in_closed c' = true /\
+             fwd c' ++ opt_list (in_ev c') = fwd c ++ opt_list (in_ev c).
+Proof.
+  intros I Hc Hr. pose proof I as (ND & A2 & A3 & A4 & A5 & A6 & A7).
+  unfold close_rank, dist_rank in *. cbn [cstep].
+  destruct (d_pc c) as [|e rest| | |rest|] eqn:Hpc.
+  - destruct (in_ev c) as [e|] eqn:Hi.
+    + eexists. split; [reflexivity|]. csimp. cbn [List.length]. repeat split; auto; try lia.
+      rewrite app_nil_r. reflexivity.
+    + rewrite Hc. eexists. split; [reflexivity|]. csimp. repeat split; auto; try lia. rewrite Hi. reflexivity.
+  - destruct rest as [|l rest].
+    + eexists. split; [reflexivity|]. csimp. repeat split; auto; lia.
+    + unfold dinv in A6. rewrite Hpc in A6. destruct A6 as ((pre & Hpre) & _).
+      unfold active in A2. rewrite Hpc in A2.
+      destruct (A2 l) as (x & Hx & _). { rewrite Hpre. apply in_or_app. right. left. reflexivity. }
+      rewrite Hx. eexists. split; [reflexivity|]. destruct (l_in_closed x); csimp; cbn [List.length]; repeat split; auto; lia.
+  - eexists. split; [reflexivity|]. csimp. repeat split; auto; lia.
+  - eexists. split; [reflexivity|]. csimp. repeat split; auto; lia.
+  - destruct rest as [|l rest].
+    + eexists. split; [reflexivity|]. csimp. repeat split; auto.
+    + unfold active in A2. rewrite Hpc in A2. destruct (A2 l (or_introl eq_refl)) as (x & Hx & _).
+      rewrite Hx. eexists. split; [reflexivity|]. destruct (l_in_closed x); csimp; cbn [List.length]; repeat split; auto.
+  - congruence.
+Qed.
+
+Theorem distributor_finishes_after_close c :
+  creach c -> in_closed c = true ->
+  exists c', run_dist (close_rank c) c = Some c' /\ d_pc c' = DDone /\ creach c' /\
+             fwd c' = fwd c ++ opt_list (in_ev c).
+Proof.
+  intros R Hc. remember (close_rank c) as n eqn:Hn. revert c R Hc Hn.
+  induction n as [|n IH]; intros c R Hc Hn.
+  - exists c. cbn. split; [reflexivity|].
+    assert (Hd : d_pc c = DDone).
+    { unfold close_rank in Hn. destruct (d_pc c); try reflexivity; try discriminate Hn; lia. }
+    split; [exact Hd|]. split; [exact R|].
+    destruct (cinv_reach _ R) as (_ & _ & _ & _ & _ & A6 & _). unfold dinv in A6. rewrite Hd in A6.
+    destruct A6 as (_ & _ & ->). cbn. rewrite app_nil_r. reflexivity.
+  - destruct (close_step c (cinv_reach _ R) Hc) as (c1 & H1 & Hr1 & Hc1 & Hf1); [congruence|].
+    assert (R1 : creach c1) by (eapply reachable_step; eassumption).
+    destruct (IH c1 R1 Hc1) as (c' & Hrun & Hd & R' & Hf). { rewrite Hr1, <- Hn. reflexivity. }
+    exists c'. cbn [run_dist]. rewrite H1. repeat split; auto. rewrite Hf, Hf1. reflexivity.
+Qed.
+
+(* Subscriber.Close: once inEvents is closed, the distributor's own steps (no reader,
+   no other goroutine needed) forward what was still queued in inEvents, then close every
+   listener; every registered listener's input is then closed *)
+Theorem close_closes_all_after_queued fx s :
+  reach fx s -> in_closed (co s) = true ->
+  exists s', run (stepf fx) s (repeat (Core LDist) (close_rank (co s))) = Some s' /\
+             d_pc (co s') = DDone /\ fwd (co s') = sent_log s /\
+             forall l x, lst (co s') l = Some x -> l_reg x = true -> l_in_closed x = true.
+Proof.
+  intros R Hc. destruct (distributor_finishes_after_close _ (reach_core _ _ R) Hc) as (c' & Hrun & Hd & R' & Hf).
+  exists (w_co s c'). split; [apply run_core_dist; exact Hrun|]. split; [exact Hd|].
+  split; [cbn; rewrite Hf; symmetry; apply (forward_order_is_send_order _ _ R)|].
+  intros l x Hl Hr. eapply core_done_closed_all; [exact R'|exact Hd|exact Hl|exact Hr].
+Qed.
